@@ -103,6 +103,12 @@ class FluentWorklist(BaseWorklist):
         if len(set(lengths)) != 1:
             raise ValueError(f"Number of source/destination/volumes must be equal. They were {lengths}")
 
+        # wells with zero volume are skipped below, but they must exist nevertheless
+        for labware, wells in ((source, source_wells), (destination, destination_wells)):
+            unknown = [w for w in wells if w not in labware.indices]
+            if unknown:
+                raise KeyError(f"Unknown wells {unknown} for labware '{labware.name}'.")
+
         # automatic partitioning
         partition_by = optimize_partition_by(source, destination, partition_by, label)
 
